@@ -8,25 +8,28 @@ theorem run_append (orig : Bytes) (m : Bytes) (xs ys : List Edit) :
       | .error x => .error x
       | .ok m' => run orig m' ys := by
   induction xs generalizing m with
-  | nil => simp [run]
+  | nil => simp [run, runG]
   | cons x xs ih =>
-    simp only [List.cons_append, run]
-    cases step orig m x with
+    simp only [List.cons_append, run, runG]
+    cases stepG true orig m x with
     | error e => simp
-    | ok m' => simpa using ih m'
+    | ok m' => simpa [run] using ih m'
 
 theorem applyEdits_cons (c : Bytes) (e : Edit) (es : List Edit) :
     applyEdits c (e :: es) =
       match applyEdits c es with
       | .error x => .error x
       | .ok m => step c m e := by
-  unfold applyEdits
-  rw [List.reverse_cons, run_append]
+  have h := run_append c c es.reverse [e]
+  have h1 : applyEdits c (e :: es) = run c c (es.reverse ++ [e]) := by
+    simp [applyEdits, applyEditsG, run, List.reverse_cons]
+  have h2 : applyEdits c es = run c c es.reverse := rfl
+  rw [h1, h, h2]
   cases run c c es.reverse with
   | error x => rfl
   | ok m =>
-    simp only [run]
-    cases step c m e <;> rfl
+    simp only [run, runG, step]
+    cases stepG true c m e <;> rfl
 
 theorem boundary_getElem {c : Bytes} {i : Nat} (h0 : i ≠ 0) (hb : isCharBoundary c i = true)
     {b : UInt8} (hc : c[i]? = some b) : isCont b = false := by
@@ -97,11 +100,11 @@ theorem take_add' (c : Bytes) (a b : Nat) (h : a ≤ b) :
 theorem applyEdits_prefix (c : Bytes) (off : Nat) (es : List Edit) (h : Consistent c off es) :
     applyEdits c es = .ok (c.take off ++ spec c off es) := by
   induction es generalizing off with
-  | nil => simp [applyEdits, run, spec]
+  | nil => simp [applyEdits, applyEditsG, runG, spec]
   | cons e es ih =>
     obtain ⟨h1, h2, h3, hbs, hbe, hbefore, hafter, hrest⟩ := h
     rw [applyEdits_cons, ih e.stop hrest]
-    simp only [step]
+    simp only [step, stepG]
     have hslice : sliceStr c e.start e.stop = some e.before := by
       unfold sliceStr
       rw [if_pos ⟨h2, h3, hbs, hbe⟩, hbefore]
